@@ -8,6 +8,9 @@ CHECK_DEADLOCK FALSE
 INVARIANT ITexRefs
 INVARIANT IMatRefs
 INVARIANT IIdxRefs
+INVARIANT IDoodadRefs
+INVARIANT IAttrsParallel
+INVARIANT IPortalRefs
 INVARIANT ISetRanges
 INVARIANT IHeaderCounts
 INVARIANT IGroupsParallel
